@@ -322,6 +322,11 @@ class C03(WithEL):
 # ------------------------------------------------------------------------------------------------
 class C04(SimCheck):
     prop = "C04"
+    level_text = ("Theorems for every configuration and program: the termination predicate spelled out; every executed event "
+                  "is within the duration and below the iteration limit; no callback (finish included) observes a time after "
+                  "the duration; a live step within both bounds executes exactly the head event (events AT the duration run); "
+                  "completion is reported only at a bound. Tied to the code by differential execution and by comparing the "
+                  "bounded run with the unbounded run of the same program on the implementation.")
     rule = ("timelines from table-driven protocols against duration in {0, an event time, between, beyond, None} x "
             "max_iterations in {0, 1, k, None}; the bounded run is compared with the unbounded run of the same program on "
             "the implementation; non-trivial = a bound actually cut the run")
@@ -414,6 +419,11 @@ def lifecycle(trace):
 
 class C05(SimCheck):
     prop = "C05"
+    level_text = ("Theorem giving the lifecycle projection of the trace of every reachable world in closed form (handler init, "
+                  "protocol initialize at 0, after-step fan-out with consecutive iteration numbers and the event's timestamp, "
+                  "protocol finish, handler finalize — each exactly once, in that order), plus: a step that returns False "
+                  "finalises, further steps are no-ops, blocking start equals any sufficient number of manual steps. Tied to "
+                  "the code by differential execution over handler sets, termination causes and driving modes.")
     rule = ("0-3 recording handlers plus any subset of the real timer/communication/mobility handlers, 1-5 nodes, all "
             "termination causes, blocking start vs manual stepping with extra steps after completion, finish callbacks "
             "that schedule timers; non-trivial = >= 2 handlers, >= 2 nodes, the run completed and was stepped further")
@@ -542,6 +552,11 @@ def timer_failures(case, impl, prefix="C07"):
 
 class C07(SimCheck):
     prop = "C07"
+    level_text = ("Theorems for every program and history: the pending-timer invariant on every reachable world (fresh unique "
+                  "ids, every pending timer has exactly one queued event), set/cancel/fire specifications (refusal of the past "
+                  "without effect, cancel removes all and only the owner's entries of that name, the fired entry is forgotten "
+                  "before the handler runs, handle_timer only from the owner's still-pending event). Tied to the code by "
+                  "differential execution with re-entrant set/cancel histories.")
     rule = ("1-4 nodes, 3 timer names, histories of set/cancel issued from initialize, packet and timer handlers (same and "
             "other names, same-instant sets); non-trivial = a cancel suppressed a pending timer while another name or node "
             "kept one, and a set or cancel was issued from inside a timer handler")
@@ -637,6 +652,11 @@ def delivery_failures(case, impl, prefix="C08"):
 
 class C08(SimCheck):
     prop = "C08"
+    level_text = ("Theorems (loss-free, in range, any node count, delay, program): a unicast creates exactly one delivery event "
+                  "for the named node at send+max(delay,0); a broadcast exactly one per other node in node order and none for "
+                  "the sender; invalid destinations are refused without effect; executing a delivery is one handle_packet with "
+                  "the unchanged payload on the addressee and handle_packet happens only that way; with C02 each exactly once. "
+                  "Tied to the code by differential execution.")
     rule = ("2-5 nodes all in range, loss-free medium, delays in {0, 1 tick, several}, sends/broadcasts (incl. to self, "
             "unknown, None) from initialize, timer, packet and telemetry handlers; non-trivial = >= 3 nodes, >= 1 broadcast, "
             ">= 2 messages in flight at once")
@@ -674,12 +694,17 @@ class C08(SimCheck):
 # ------------------------------------------------------------------------------------------------
 class C12(SimCheck):
     prop = "C12"
+    level_text = ("Theorems for every node count, movement state and interval: one mobility update moves every node by its own "
+                  "state only, creates exactly one telemetry event per node (node order, due now, carrying that node's own new "
+                  "position) and exactly one next update dt later; no request or callback ever moves a node; executing a "
+                  "telemetry event is one handle_telemetry on its node. Tied to the code by bit-exact differential execution of "
+                  "positions and telemetry payloads.")
     rule = ("1-5 nodes moving and static, several update intervals, runs cut by duration / iteration limit / stepping; "
             "non-trivial = >= 2 nodes at different positions with >= 1 moving and >= 3 ticks")
     force_cfg = {"hasMob": True, "hasTimer": True}
     want_pos = True
     profile = {"w": {"setTimer": 2, "cancelTimer": 0.3, "send": 1, "broadcast": 0.5, "goto": 4, "setSpeed": 1.5,
-                     "setRange": 0, "gotoGeo": 0.3}, "pTelemetry": 0.2}
+                     "setRange": 0, "gotoGeo": 0}, "pTelemetry": 0.2}
 
     def tweak(self, r, scn):
         return scn
